@@ -617,6 +617,8 @@ class _Interp:
         dx = dx1 + dx2 + dx3 + dx4 + dx5
         dy = dy1 + dy2 + dy3 + dy4 + dy5
         self.curve(dx1, dy1, dx2, dy2, dx3, dy3)
+        if abs(dx) == abs(dy):
+            self.r.forms.add("flex1/tie")
         if abs(dx) > abs(dy):
             self.r.forms.add("flex1/horizontal")
             self.curve(dx4, dy4, dx5, dy5, d6, -dy)
